@@ -212,11 +212,20 @@ fn parse_nd_rtr_options(buf: &mut Buffer) -> Result<NDOptions, Error> {
                 use std::convert::{TryFrom as _, TryInto as _};
                 let scaled_lifetime_plc = u16::from_be_bytes(value[0..=1].try_into().unwrap());
                 let lifetime = Duration::from_secs((scaled_lifetime_plc & !7).into());
-                let prefixlen = (scaled_lifetime_plc & 0x07) * 8 + 32;
+                /* Prefix Length Code, RFC 8781 section 4 */
+                let prefixlen: u8 = match scaled_lifetime_plc & 0x07 {
+                    0 => 96,
+                    1 => 64,
+                    2 => 56,
+                    3 => 48,
+                    4 => 40,
+                    5 => 32,
+                    _ => return Err(Error::InvalidPacket),
+                };
                 let ip_octets =
                     <[u8; 16]>::try_from([&value[2..], &[0, 0, 0, 0]].concat()).unwrap();
                 let prefix = std::net::Ipv6Addr::from(ip_octets);
-                options.add_option(NDOptionValue::Pref64((lifetime, prefixlen as u8, prefix)));
+                options.add_option(NDOptionValue::Pref64((lifetime, prefixlen, prefix)));
             }
             (MTU, value) => {
                 if value.len() != 8 - 2 {
@@ -447,7 +456,16 @@ fn serialise_router_advertisement(a: &RtrAdvertisement) -> Vec<u8> {
                 v.serialise(2_u8);
                 /* 13 bits, in units of 8 seconds */
                 let scaled_lifetime = std::cmp::min(lifetime.as_secs() / 8, 8191) as u16;
-                let plc = ((prefixlen - 32) / 8) as u16;
+                /* Prefix Length Code, RFC 8781 section 4 */
+                let plc: u16 = match prefixlen {
+                    96 => 0,
+                    64 => 1,
+                    56 => 2,
+                    48 => 3,
+                    40 => 4,
+                    32 => 5,
+                    _ => 0, /* other lengths are refused when the configuration is loaded */
+                };
                 v.serialise((scaled_lifetime << 3) | plc);
                 for i in 0..12 {
                     v.serialise(prefix.octets()[i])
